@@ -464,6 +464,25 @@ def extreme_scenario(rec, model, seed):
                 xi[0, 0] = 88.5                 # (back to the edge of the single-precision range before every call)
                 st2["xi"] = xi
             smp.sample(st2, temperature_inv=0.5)
+    # a cohort fitted perfectly by the current values and observed almost without noise: every proposal of every individual is
+    # prohibitive (all acceptance ratios underflow to 0) - a draw is still consumed for every decision
+    if "tau" in state.dag and "y" in state.dag and "noise_std" in state.dag and "model" in state.dag:
+        from leaspy.utils.weighted_tensor import WeightedTensor
+        st3 = state.clone()
+        try:
+            with st3.auto_fork(None):
+                y = st3["y"]
+                mdl = st3["model"]
+                mv = (mdl.value if hasattr(mdl, "value") else mdl).detach().clone()
+                st3["y"] = WeightedTensor(torch.where(y.weight != 0, mv, torch.zeros_like(mv)), y.weight)
+                st3["noise_std"] = torch.full_like(st3["noise_std"], 1e-4)
+            n_ind = st3["tau"].shape[0]
+            smp = sampler_factory("Gibbs", IndividualLatentVariable, name="tau", shape=(1,), n_patients=n_ind, scale=2.0, acceptation_history_length=2)
+            rec.wrap(smp)
+            for _ in range(3):
+                smp.sample(st3, temperature_inv=1.0)
+        except LeaspyInputError:
+            pass                     # (models whose observations are not settable this way)
     with state.auto_fork(None):
         state[var] = state[var] + 95.0          # exp overflow: the attachment is not finite any more
     smp = sampler_factory("Gibbs", PopulationLatentVariable, name=var, shape=shape, scale=state[var].abs(),
